@@ -10,6 +10,10 @@
 //   R <hist> <run> plan=.. repeat=0|1 events=n failed=n recovered=n background=n kinds=.. ok | VIOL <key> <text>
 //   M <line>  history lines of the twin and of every faulted replay for the extracted Ledger model
 //   X <hist> harness-error ...
+//   G <phase> <target> seen=<histories> faulted=<histories>   fault-target coverage (guided mode, see guided.go)
+// Plans: "j<k>" call k of every operation, "last<d>", "frac<p>" (one failing call; "/r": repeated),
+// "j<k>+<d>" call k and the d-th call after it (two non-adjacent faults inside one operation),
+// "v<op>.<j>[+<d>]_..." explicit faults per operation (what the guided mode builds).
 package main
 
 import (
@@ -28,7 +32,7 @@ import (
 )
 
 var (
-	nHist, nRuns, nEvents, nViol int
+	nHist, nRuns, nEvents, nViol, nDouble int
 	byOutcome                    = map[string]int{}
 	byKind                       = map[string]int{}
 	byOp                         = map[string]int{}
@@ -65,23 +69,32 @@ func emitModel(w *bufio.Writer, id string, lines []string) {
 	}
 }
 
-func one(w *bufio.Writer, seed uint64, n int, all bool, quota int, only string) {
-	opt := cfsim.GenOptions{Hist: hist.Options{Games: true, Lag: true, MaxReorg: 3}, Import: true, Remove: true, MinSteps: 6, MaxSteps: 20}
-	s, err := cfsim.Generate(seed, n, opt)
+var genOpt = cfsim.GenOptions{Hist: hist.Options{Games: true, Lag: true, MaxReorg: 3}, Import: true, Remove: true, MinSteps: 6, MaxSteps: 20, TailNewAddr: true}
+
+// genTwin generates history n, runs its twin and prints the S / C / M lines.
+func genTwin(w *bufio.Writer, seed uint64, n int, info bool) (*cfsim.Script, *cfsim.Twin, int) {
+	s, err := cfsim.Generate(seed, n, genOpt)
 	if err != nil {
 		fmt.Fprintf(w, "X %d harness-error generate: %v\n", n, err)
-		return
+		return nil, nil, 0
 	}
-	twin, err := cfsim.RunTwin(s, true, true)
+	var twin *cfsim.Twin
+	if info {
+		twin, err = cfsim.RunTwinInfo(s)
+	} else {
+		twin, err = cfsim.RunTwin(s, true, true)
+	}
 	if err != nil {
 		fmt.Fprintf(w, "X %d harness-error %v\n", n, err)
-		return
+		return nil, nil, 0
 	}
 	nHist++
 	maxCalls, total := 0, 0
 	seen := map[string]int{}
+	observed := 0 // NewAddress calls that follow an import / another operation on their wallet
+	lastW := map[int]bool{}
 	for i, op := range s.Ops {
-		if !(op.Kind.Mutating() || op.Kind == cfsim.OpAnnounce || op.Kind == cfsim.OpWait) {
+		if !cfsim.Faultable(op.Kind) {
 			continue
 		}
 		total += twin.Calls[i]
@@ -91,15 +104,30 @@ func one(w *bufio.Writer, seed uint64, n int, all bool, quota int, only string) 
 		for _, k := range twin.Kinds[i] {
 			seen[op.Kind.String()+" "+k.String()]++
 		}
+		if op.Kind == cfsim.OpNewAddr && lastW[op.W] {
+			observed++
+		}
+		if op.Kind.Mutating() {
+			lastW[op.W] = true
+		}
 	}
-	foreign := 0
+	foreign, afterImport := 0, 0
 	for _, ws := range s.Wallets {
 		if ws.Foreign {
 			foreign = ws.Num
 		}
 	}
-	fmt.Fprintf(w, "S %d ops=%d commits=%d calls=%d maxcalls=%d blocks=%d reorgs=%d creates=%d newaddr=%d imports=%d removes=%d foreign=%d\n",
-		n, len(s.Ops), twin.Commits, total, maxCalls, s.Stats.Blocks, s.Stats.Reorgs, s.Stats.Creates, s.Stats.NewAddr, s.Stats.Imports, s.Stats.Removes, foreign)
+	imported := false
+	for _, op := range s.Ops {
+		if op.Kind == cfsim.OpImport {
+			imported = true
+		}
+		if imported && op.Kind == cfsim.OpNewAddr && op.W == foreign {
+			afterImport++
+		}
+	}
+	fmt.Fprintf(w, "S %d ops=%d commits=%d calls=%d maxcalls=%d blocks=%d reorgs=%d creates=%d newaddr=%d imports=%d removes=%d foreign=%d newaddr_after_import=%d newaddr_after_op_on_wallet=%d\n",
+		n, len(s.Ops), twin.Commits, total, maxCalls, s.Stats.Blocks, s.Stats.Reorgs, s.Stats.Creates, s.Stats.NewAddr, s.Stats.Imports, s.Stats.Removes, foreign, afterImport, observed)
 	var ks []string
 	for k := range seen {
 		ks = append(ks, k)
@@ -109,8 +137,119 @@ func one(w *bufio.Writer, seed uint64, n int, all bool, quota int, only string) 
 		fmt.Fprintf(w, "C %s %d\n", k, seen[k])
 	}
 	emitModel(w, fmt.Sprintf("%d:twin", n), twin.Lines)
+	return s, twin, maxCalls
+}
 
+// report prints the V / R (/ M) lines of one faulted run.
+func report(w *bufio.Writer, n int, id, planName string, rep int, res *cfsim.FaultResult, model bool) {
+	nRuns++
+	oc := map[string]int{}
+	kinds := map[string]int{}
+	for _, e := range res.Events {
+		oc[e.Outcome]++
+		byOutcome[e.Outcome]++
+		ck := e.CallKind.String()
+		if e.D > 0 && len(e.Hits) >= 2 {
+			ck += "+" + e.Hits[1].Kind.String()
+			nDouble++
+		}
+		kinds[ck]++
+		byKind[e.CallKind.String()]++
+		byOp[e.OpKind.String()]++
+		nEvents++
+	}
+	var kl []string
+	for k, v := range kinds {
+		kl = append(kl, fmt.Sprintf("%s:%d", k, v))
+	}
+	sort.Strings(kl)
+	for _, t := range res.Traces {
+		nViol++
+		fmt.Fprintf(w, "V %d %s %s %s\n", n, id, t.Key, strings.Replace(t.What, "\n", " ", -1))
+	}
+	verdict := "ok"
+	if res.Viol != nil {
+		nViol++
+		verdict = "VIOL " + res.Viol.Key + " " + strings.Replace(res.Viol.What, "\n", " ", -1)
+	}
+	fmt.Fprintf(w, "R %d %s plan=%s repeat=%d events=%d failed=%d recovered=%d background=%d kinds=%s %s\n", n, id, planName, rep, len(res.Events),
+		oc["failed"]+oc["failed-then-ok-under-fault"]+oc["failed-keystore-dropped"], oc["recovered"], oc["background"], strings.Join(kl, ","), verdict)
+	if res.Viol == nil && model {
+		emitModel(w, id, res.Lines)
+	}
+}
+
+// runLegacy runs one index-rule plan (one failing call per operation, optionally repeated), or a
+// uniform pair plan "j<k>+<d>", or an explicit plan "v...".
+func runLegacy(w *bufio.Writer, s *cfsim.Script, twin *cfsim.Twin, n int, p plan) {
+	id := fmt.Sprintf("%d:%s", n, p.name)
+	if p.rep {
+		id += "/r"
+	}
+	var res *cfsim.FaultResult
+	var err error
+	switch {
+	case strings.HasPrefix(p.name, "v"):
+		var pl cfsim.Plan
+		if pl, err = cfsim.ParsePlan(p.name); err == nil {
+			if len(pl) == 1 {
+				res, err = cfsim.RunFaultPlanTracked(s, pl, twin)
+			} else if res, err = cfsim.RunFaultPlan(s, pl, twin); err == nil {
+				reportAttributed(w, s, twin, n, id, p.name, pl, res, true)
+				return
+			}
+		}
+	case strings.HasPrefix(p.name, "j") && strings.Contains(p.name, "+"):
+		f := strings.SplitN(p.name[1:], "+", 2)
+		k, _ := strconv.Atoi(f[0])
+		d, _ := strconv.Atoi(f[1])
+		res, err = cfsim.RunFaultPlan(s, cfsim.UniformPlan(s, twin, k, d), twin)
+	default:
+		res, err = cfsim.RunFault(s, picker(p.name, twin), p.rep, twin)
+	}
+	if err != nil {
+		fmt.Fprintf(w, "X %d harness-error run %s: %v\n", n, id, err)
+		return
+	}
+	rep := 0
+	if p.rep {
+		rep = 1
+	}
+	report(w, n, id, p.name, rep, res, true)
+}
+
+// legacyPlans: the sampled index-rule plans of a history.
+func legacyPlans(seed uint64, n, maxCalls, quota int) []plan {
 	r := rng.New(seed*911 + uint64(n)*17 + 3)
+	// the last calls of every operation (commit, the puts before it), the first ones (begin,
+	// first reads), and random indexes / fractions in between
+	cand := []plan{{"last0", false}, {"last0", true}, {"last1", false}, {"last2", r.Bool()}, {"last3", r.Bool()}, {"j1", false}, {"j2", r.Bool()}, {"j3", r.Bool()}}
+	for len(cand) < quota+6 {
+		if r.Bool() {
+			cand = append(cand, plan{fmt.Sprintf("j%d", 4+r.Intn(maxCalls)), r.Chance(30)})
+		} else {
+			cand = append(cand, plan{fmt.Sprintf("frac%d", 5+r.Intn(90)), r.Chance(30)})
+		}
+	}
+	// keep the two commit plans, sample the rest
+	plans := []plan{cand[0], cand[1]}
+	rest := cand[2:]
+	for len(plans) < quota && len(rest) > 0 {
+		k := r.Intn(len(rest))
+		plans = append(plans, rest[k])
+		rest = append(rest[:k], rest[k+1:]...)
+	}
+	return plans
+}
+
+func one(w *bufio.Writer, seed uint64, n int, all bool, quota int, only string, pairs int) {
+	// explicit plans and pair plans compare the whole database with the twin's at the end: the twin
+	// must have recorded it (RunTwinInfo)
+	info := (all && pairs > 0) || strings.HasPrefix(only, "v") || strings.Contains(only, "+")
+	s, twin, maxCalls := genTwin(w, seed, n, info)
+	if s == nil {
+		return
+	}
 	var plans []plan
 	if only != "" {
 		f := strings.Split(only, "/")
@@ -122,97 +261,21 @@ func one(w *bufio.Writer, seed uint64, n int, all bool, quota int, only string) 
 		for d := 0; d < 6; d++ {
 			plans = append(plans, plan{fmt.Sprintf("last%d", d), d%2 == 1})
 		}
-	} else {
-		// the last calls of every operation (commit, the puts before it), the first ones (begin,
-		// first reads), and random indexes / fractions in between
-		cand := []plan{{"last0", false}, {"last0", true}, {"last1", false}, {"last2", r.Bool()}, {"last3", r.Bool()}, {"j1", false}, {"j2", r.Bool()}, {"j3", r.Bool()}}
-		for len(cand) < quota+6 {
-			if r.Bool() {
-				cand = append(cand, plan{fmt.Sprintf("j%d", 4+r.Intn(maxCalls)), r.Chance(30)})
-			} else {
-				cand = append(cand, plan{fmt.Sprintf("frac%d", 5+r.Intn(90)), r.Chance(30)})
+		// every pair (k, d) up to the bound: call k and the d-th call after it
+		for k := 1; k <= pairs && k <= maxCalls; k++ {
+			for d := 2; d <= 2*pairs; d++ {
+				plans = append(plans, plan{fmt.Sprintf("j%d+%d", k, d), false})
 			}
 		}
-		// keep the two commit plans, sample the rest
-		plans = append(plans, cand[0], cand[1])
-		rest := cand[2:]
-		for len(plans) < quota && len(rest) > 0 {
-			k := r.Intn(len(rest))
-			plans = append(plans, rest[k])
-			rest = append(rest[:k], rest[k+1:]...)
-		}
+	} else {
+		plans = legacyPlans(seed, n, maxCalls, quota)
 	}
 	for _, p := range plans {
-		res, err := cfsim.RunFault(s, picker(p.name, twin), p.rep, twin)
-		id := fmt.Sprintf("%d:%s", n, p.name)
-		if p.rep {
-			id += "/r"
-		}
-		if err != nil {
-			fmt.Fprintf(w, "X %d harness-error run %s: %v\n", n, id, err)
-			continue
-		}
-		nRuns++
-		oc := map[string]int{}
-		kinds := map[string]int{}
-		for _, e := range res.Events {
-			oc[e.Outcome]++
-			byOutcome[e.Outcome]++
-			kinds[e.CallKind.String()]++
-			byKind[e.CallKind.String()]++
-			byOp[e.OpKind.String()]++
-			nEvents++
-		}
-		var kl []string
-		for k, v := range kinds {
-			kl = append(kl, fmt.Sprintf("%s:%d", k, v))
-		}
-		sort.Strings(kl)
-		for _, t := range res.Traces {
-			nViol++
-			fmt.Fprintf(w, "V %d %s %s %s\n", n, id, t.Key, strings.Replace(t.What, "\n", " ", -1))
-		}
-		verdict := "ok"
-		if res.Viol != nil {
-			nViol++
-			verdict = "VIOL " + res.Viol.Key + " " + strings.Replace(res.Viol.What, "\n", " ", -1)
-		}
-		rep := 0
-		if p.rep {
-			rep = 1
-		}
-		fmt.Fprintf(w, "R %d %s plan=%s repeat=%d events=%d failed=%d recovered=%d background=%d kinds=%s %s\n", n, id, p.name, rep, len(res.Events),
-			oc["failed"]+oc["failed-then-ok-under-fault"], oc["recovered"], oc["background"], strings.Join(kl, ","), verdict)
-		if res.Viol == nil {
-			emitModel(w, id, res.Lines)
-		}
+		runLegacy(w, s, twin, n, p)
 	}
 }
 
-func main() {
-	count := flag.Int("n", 40, "number of histories")
-	outPath := flag.String("out", "", "output file")
-	workers := flag.Int("j", 12, "parallel worker processes")
-	first := flag.Int("first", 0, "index of the first history")
-	worker := flag.Bool("worker", false, "internal: run sequentially and print to stdout")
-	all := flag.Bool("all", false, "every call index of every operation")
-	quota := flag.Int("quota", 8, "fault plans per history when sampling")
-	only := flag.String("only", "", "replay one faulted run: <plan>[/r]")
-	flag.Parse()
-	if !*worker {
-		if err := hist.ParallelSelf(*count, *first, *workers, *outPath, os.Args[1:]); err != nil {
-			fmt.Fprintln(os.Stderr, err)
-			os.Exit(2)
-		}
-		return
-	}
-	sim.Init(sim.Params{CoinbaseMaturity: 4, MinFrozenPeriod: 2, GapLimit: 20})
-	seed := rng.Seed()
-	w := bufio.NewWriter(os.Stdout)
-	for i := 0; i < *count; i++ {
-		one(w, seed, *first+i, *all, *quota, *only)
-		w.Flush()
-	}
+func stats() {
 	var parts []string
 	for _, m := range []struct {
 		p string
@@ -227,5 +290,45 @@ func main() {
 			parts = append(parts, fmt.Sprintf("%s%s=%d", m.p, strings.Replace(k, "-", "_", -1), m.m[k]))
 		}
 	}
-	fmt.Fprintf(os.Stderr, "STATS histories=%d faulted_runs=%d faults_injected=%d divergences=%d %s\n", nHist, nRuns, nEvents, nViol, strings.Join(parts, " "))
+	fmt.Fprintf(os.Stderr, "STATS histories=%d faulted_runs=%d faults_injected=%d double_faults=%d divergences=%d %s\n", nHist, nRuns, nEvents, nDouble, nViol, strings.Join(parts, " "))
+}
+
+func main() {
+	count := flag.Int("n", 40, "number of histories")
+	outPath := flag.String("out", "", "output file")
+	workers := flag.Int("j", 12, "parallel worker processes")
+	first := flag.Int("first", 0, "index of the first history")
+	worker := flag.Bool("worker", false, "internal: run sequentially and print to stdout")
+	srv := flag.Bool("serve", false, "internal: worker of the guided mode (commands on stdin)")
+	all := flag.Bool("all", false, "every call index of every operation")
+	pairs := flag.Int("pairs", 0, "with -all: every pair of faults (call k <= pairs, distance d <= 2*pairs) as well")
+	quota := flag.Int("quota", 8, "fault plans per history when sampling (guided mode: budget of runs per history)")
+	guided := flag.Bool("guided", false, "coverage-guided plans: every fault target of every twin, every target of a repair path as second fault")
+	mult := flag.Int("mult", 2, "guided mode: histories every target is faulted in (reduced when the budget does not allow it)")
+	only := flag.String("only", "", "replay one faulted run: <plan>[/r]")
+	flag.Parse()
+	cfsim.HoldBackground = true
+	if *srv {
+		sim.Init(sim.Params{CoinbaseMaturity: 4, MinFrozenPeriod: 2, GapLimit: 20})
+		serve(rng.Seed())
+		return
+	}
+	if *guided && !*worker {
+		os.Exit(runMaster(*count, *first, *workers, *outPath, *quota, *mult))
+	}
+	if !*worker {
+		if err := hist.ParallelSelf(*count, *first, *workers, *outPath, os.Args[1:]); err != nil {
+			fmt.Fprintln(os.Stderr, err)
+			os.Exit(2)
+		}
+		return
+	}
+	sim.Init(sim.Params{CoinbaseMaturity: 4, MinFrozenPeriod: 2, GapLimit: 20})
+	seed := rng.Seed()
+	w := bufio.NewWriter(os.Stdout)
+	for i := 0; i < *count; i++ {
+		one(w, seed, *first+i, *all, *quota, *only, *pairs)
+		w.Flush()
+	}
+	stats()
 }
